@@ -806,7 +806,11 @@ mod enc_replay {
     mods: HashMap<String, (Vec<u8>, Option<HashMap<String, String>>)>,
   }
   impl Loader for OneLoader {
-    fn load(&self, specifier: &ModuleSpecifier, _o: LoadOptions) -> LoadFuture {
+    fn load(&self, specifier: &ModuleSpecifier, o: LoadOptions) -> LoadFuture {
+      // cold cache: a cache-only probe finds nothing
+      if o.cache_setting == CacheSetting::Only {
+        return Box::pin(async move { Ok(None) });
+      }
       let r = self.mods.get(specifier.as_str()).map(|(b, h)| LoadResponse::Module {
         content: Arc::from(b.clone()), mtime: None, specifier: specifier.clone(), maybe_headers: h.clone(),
       });
@@ -822,15 +826,26 @@ mod enc_replay {
     for rep in 0..3u64 {
       let text = payload_text(media, seed.wrapping_add(rep).wrapping_add(idx as u64), cls);
       let bytes = bytes_for(cls, &text);
-      let base = if scheme == "file" { "file:///".to_string() } else { "https://h.example/".to_string() };
+      let base = if scheme == "file" { "file:///".to_string() } else if scheme == "jsr" { "https://jsr.io/@s/p/1.0.0/".to_string() } else { "https://h.example/".to_string() };
       let murl = format!("{base}m.{media}");
-      let rurl = format!("{base}root.ts");
+      let rurl = if scheme == "jsr" { "file:///root.ts".to_string() } else { format!("{base}root.ts") };
       let ctype = if media == "json" { "application/json" } else { "application/typescript" };
       let headers = (header != "none").then(|| HashMap::from([("content-type".to_string(), format!("{ctype}; charset={header}"))]));
       let mut mods = HashMap::new();
       mods.insert(murl.clone(), (bytes.clone(), headers.clone()));
       let with = if media == "json" { " with { type: \"json\" }" } else { "" };
-      mods.insert(rurl.clone(), (format!("import x from \"./m.{media}\"{with};\n").into_bytes(), None));
+      if scheme == "jsr" {
+        use sha2::Digest;
+        let mut h = sha2::Sha256::new();
+        h.update(&bytes);
+        let file = format!("/m.{media}");
+        mods.insert("https://jsr.io/@s/p/meta.json".to_string(), (json!({"versions": {"1.0.0": {}}}).to_string().into_bytes(), None));
+        mods.insert("https://jsr.io/@s/p/1.0.0_meta.json".to_string(), (json!({"exports": {"./m": format!("./m.{media}")},
+          "manifest": {file.clone(): {"size": bytes.len(), "checksum": format!("sha256-{:x}", h.finalize())}}, "moduleGraph2": {file: {}}}).to_string().into_bytes(), None));
+        mods.insert(rurl.clone(), (format!("import x from \"jsr:@s/p@1/m\"{with};\n").into_bytes(), None));
+      } else {
+        mods.insert(rurl.clone(), (format!("import x from \"./m.{media}\"{with};\n").into_bytes(), None));
+      }
       let loader = OneLoader { mods };
       let mut g = ModuleGraph::new(GraphKind::All);
       let root = ModuleSpecifier::parse(if pos == "root" { &murl } else { &rurl }).unwrap();
@@ -946,7 +961,9 @@ pub fn cmd_fc(args: &[String]) -> i32 {
     }
   } else {
     for i in 0..n {
-      worlds.push((format!("fw{i}"), fc::gen_world(&mut rng, slow), None));
+      let w = fc::gen_world(&mut rng, slow);
+      // every third world is published to the registry and consumed from a root module instead of being a workspace
+      worlds.push((format!("fw{i}"), if i % 3 == 2 { w.to_registry() } else { w }, None));
     }
   }
   let run = |wid: &str, world: &fc::FcWorld, cache: Option<&fc::MemCache>, problems: &mut Vec<Value>| -> Option<Value> {
@@ -1114,6 +1131,22 @@ pub fn cmd_symbols(args: &[String]) -> i32 {
     roots.sort();
     worlds += 1;
     run(format!("rand{i}"), files, roots, None, &mut out, &mut problems);
+  }
+  // hand-written declaration forms: every syntactic way of producing nested symbols (dotted and block namespaces of
+  // several depths, merging, classes with every member kind, enums, overloads, destructuring, default exports)
+  {
+    let forms: Vec<(&str, &str)> = vec![
+      ("file:///forms/ns.ts", "export namespace A.B.C { export const x = 1; export interface I { a: number } }\nexport namespace D.E { export function f(): void {} }\nnamespace P.Q.R.S { export type T = string; }\nexport namespace Blk { export namespace In1 { export namespace In2 { export const deep = 1; } } }\n"),
+      ("file:///forms/merge.ts", "export interface M { a: number }\nexport interface M { b: string }\nexport namespace M { export const c = 1; }\nexport function F(): void;\nexport function F(a: number): void;\nexport function F(a?: number): void {}\nexport namespace F { export const meta = 1; }\nexport class K {}\nexport namespace K { export type Opt = { v: number }; }\nexport enum En { A, B }\nexport namespace En { export function parse(s: string): En { return En.A; } }\n"),
+      ("file:///forms/cls.ts", "export abstract class C<T> { static s = 1; static #ps = 2; #p = 3; private q = 4; readonly r: T = null as any; constructor(public pp: number, private pq: string) {} get g(): number { return 1; } set g(v: number) {} m(): void {} static sm(): void {} abstract am(): void; [Symbol.iterator](): void {} ['computed'](): void {} declare d: number; accessor acc = 1; static { C.s = 2; } }\nexport default class extends C<number> { am(): void {} }\n"),
+      ("file:///forms/vars.ts", "export const { a, b: [c, ...d], ...e } = { a: 1, b: [1, 2, 3], f: 1 } as any;\nexport let [x, , y = 2] = [1, 2, 3];\nexport var v1 = 1, v2 = 2;\nexport const fnExpr = function named() {}, arrow = () => {}, cls = class Inner { m() {} };\nexport type Alias<T> = { [K in keyof T]: T[K] };\nexport declare function amb(a: string): number;\ndeclare global { interface Window { extra: number } }\ndeclare module \"ambient\" { export const z: number; }\nexport default function () {}\n"),
+      ("file:///forms/reexp.ts", "import * as ns from \"./ns.ts\";\nimport Def, { C as Renamed } from \"./cls.ts\";\nimport type { M } from \"./merge.ts\";\nexport { ns, Def, Renamed };\nexport type { M };\nexport * as all from \"./vars.ts\";\nexport * from \"./merge.ts\";\nexport { a as aa, x } from \"./vars.ts\";\nimport Eq = ns.A.B;\nexport import Eq2 = ns.A.B.C;\nexport { Eq };\n"),
+    ];
+    let files: HashMap<String, String> = forms.iter().map(|(u, t)| (u.to_string(), t.to_string())).collect();
+    let mut roots: Vec<String> = forms.iter().map(|(u, _)| u.to_string()).collect();
+    roots.sort();
+    worlds += 1;
+    run("forms".to_string(), files, roots, None, &mut out, &mut problems);
   }
   if let Some(dir) = arg(args, "--corpus") {
     // one world per spec file: all its module sources
